@@ -85,6 +85,12 @@ def parseOp (tok : String) : Option Op :=
       (← parseBool naked) (← parseBool app) (← parseRhs rhs))
   | ["IA", name, app, rhs] => do
     pure (.inline (← ofHex name) (← parseBool app) (← parseRhs rhs))
+  | ["PA", name, idx, colon, val] => do
+    let idx ← if idx = "_" then some none
+      else if idx.startsWith "i" then (parseInt (idx.drop 1).toString).map some
+      else none
+    pure (.paramAssign (← ofHex name) idx (← parseBool colon) (← ofHex val))
+  | ["N"] => some .nop
   | ["U", mode, name, sub] => do
     let mode ← match mode with
       | "b" => some UnsetMode.both | "v" => some .vars | "f" => some .funcs | _ => none
